@@ -81,9 +81,9 @@ def apply_one(frag, ref, p, c, errs, ctx):
     return raised is None
 
 
-def run_history(hist, Fragments):
+def run_history(hist, Fragments, fill=b'.'):
     """returns (list of (sig, what), canonical state, transitions)"""
-    frag = Fragments()
+    frag = Fragments() if fill == b'.' else Fragments(fill=fill)
     ref = Ref()
     errs = []
     trans = 0
@@ -108,7 +108,7 @@ def run_history(hist, Fragments):
         if errs:
             break
         out = frag.tobytes()
-        exp = ref.tobytes()
+        exp = ref.tobytes(fill[0])
         if out != exp:
             errs.append(('tobytes', 'tobytes()=%r expected %r (bytes at their positions, "." in holes, length=extent %d)' % (out, exp, ref.extent)))
             break
@@ -144,6 +144,14 @@ def _shard(shard, nshards, payload):
             if idx % nshards != shard:
                 continue
             errs, canon, trans = run_history(hist, Fragments)
+            if not errs and d >= 2:
+                # the fill byte is a constructor parameter: buffers with different fill bytes live side by side
+                for fill in (b'\x00', b'#', b'.'):
+                    e2, _, t2 = run_history(hist, Fragments, fill)
+                    trans += t2
+                    if e2:
+                        errs = [(sg + ' (fill=%r after other fill bytes were used)' % fill, w) for sg, w in e2]
+                        break
             st.inc('histories')
             st.inc('transitions', trans)
             st.add('states', common.digest(canon))
@@ -185,4 +193,7 @@ def replay(case):
     from bisturi.fragments import Fragments
     hist = [tuple(o) for o in case['history']]
     errs, _, _ = run_history(hist, Fragments)
+    for fill in (b'\x00', b'#', b'.'):
+        if not errs:
+            errs, _, _ = run_history(hist, Fragments, fill)
     return [{'sig': s, 'what': w} for s, w in errs]
